@@ -300,6 +300,10 @@ Section WithFile.
       | Some e => e = lb_pid (ld_body ld) /\ l_files lp = lr_files (ld_raw ld) + lb_defs (ld_body ld)
       end.
 
+  Definition held_ok (eh : bool) (l : list (option Z)) : Prop :=
+    length l = length (cfi_ents F eh) /\
+    forall i t, nth_error l i = Some (Some t) -> exists e, nth_error (cfi_ents F eh) i = Some e /\ ent_table e = t.
+
   Record Inv (s : state) : Prop := mk_Inv {
     inv_cur : length (cur s) = NSTREAMS;
     inv_culists : cache_lists_ok (cu_keys s) (cu_objs s);
@@ -314,7 +318,10 @@ Section WithFile.
     inv_symmap : forall m, e_symmap s = Some m -> m = symmap_spec F;
     inv_numtags : e_numtags s = -1 \/ count_tags (f_dyns F) = Some (e_numtags s);
     (* every unit object is the one the unit cache holds for its offset (identity) *)
-    inv_cuheap : forall id c, nth_error (cus s) id = Some c -> In (c_off c, id) (combine (cu_keys s) (cu_objs s))
+    inv_cuheap : forall id c, nth_error (cus s) id = Some c -> In (c_off c, id) (combine (cu_keys s) (cu_objs s));
+    (* the CFI entries a client holds: one memo per entry of the section; a decoded table, when present, is
+       the pure decoding of that entry *)
+    inv_cfis : forall eh l, held eh s = Some l -> held_ok eh l
   }.
 
   Lemma Inv_init n : Inv (init_state n).
@@ -331,11 +338,12 @@ Section WithFile.
     - intros m H; discriminate.
     - left. reflexivity.
     - intros [|id] c H; discriminate.
+    - intros [|] l H; discriminate.
   Qed.
 
   Lemma Inv_set_cur s c : Inv s -> length c = length (cur s) -> Inv (set_cur s c).
   Proof.
-    intros [H1 H2 H3 H4 H5 H6 H7 H8 H9 H10 H11] Hl. constructor; cbn; auto. congruence.
+    intros [H1 H2 H3 H4 H5 H6 H7 H8 H9 H10 H11 H12] Hl. constructor; cbn; auto. congruence.
   Qed.
 
   (* ---- objects persist; their immutable part does not change; generator frames are only changed
@@ -505,7 +513,7 @@ Section WithFile.
   Qed.
 
   Lemma Inv_set_frames s fr : Inv s -> Inv (set_frames s fr).
-  Proof. intros [H1 H2 H3 H4 H5 H6 H7 H8 H9 H10 H11]. constructor; cbn; auto. Qed.
+  Proof. intros [H1 H2 H3 H4 H5 H6 H7 H8 H9 H10 H11 H12]. constructor; cbn; auto. Qed.
 
   Lemma frames_rel_set_slot s afs slot f af :
     frames_rel s afs -> frame_rel s f af ->
